@@ -97,6 +97,17 @@ def cases(tier, seed):
                             for mode in ("lowest", "uppest"):
                                 out.append(_sym_case(m, M, opkind, "-", n, neig, mode, spec, d))
 
+    # ---- reuse: the same operator objects again after an in-place update of their tensors
+    for n in ([3, 6] if not thorough else [2, 3, 5, 6]):
+        for (m, d) in mdt:
+            for M in (0, 1):
+                for opkind in ("dense", "mfree"):
+                    for neig in (1, n):
+                        for mode in ("lowest", "uppest"):
+                            c = _sym_case(m, M, opkind, "-", n, neig, mode, "sep", d)
+                            c["reuse"] = 1
+                            out.append(c)
+
     # ---- batch
     for n in ([3] if not thorough else [2, 3, 5]):
         for b in BATCH:
@@ -240,8 +251,22 @@ def run_symeig(cfg):
         raise AssertionError("harness: constructed spectrum and recomputed reference disagree: %g"
                              % abserr(e_ref, pb["lam_b"]))
 
-    Aop = herm_op(cfg["opkind"], A, pb["aux"])
-    Mop = None if M is None else herm_op("mfree" if cfg["opkind"] != "dense" else "dense", M)
+    if cfg.get("reuse"):
+        # object history: the operator objects are first used on other matrices; the SAME tensors are then updated
+        # in place (as an optimiser step does) and the same operator objects are used again
+        tA = (A * 0.7 + 0.2 * torch.eye(n, dtype=dt)).clone()
+        tM = None if M is None else (M * 1.3 + 0.1 * torch.eye(n, dtype=dt)).clone()
+        Aop = herm_op(cfg["opkind"], tA, pb["aux"])
+        Mop = None if M is None else herm_op("mfree" if cfg["opkind"] != "dense" else "dense", tM)
+        torch.manual_seed(20240 + n)
+        call(symeig, Aop, neig=neig, mode=cfg["mode"], M=Mop, method=cfg["method"], **_fwd_opts(cfg))
+        with torch.no_grad():
+            tA.copy_(A)
+            if tM is not None:
+                tM.copy_(M)
+    else:
+        Aop = herm_op(cfg["opkind"], A, pb["aux"])
+        Mop = None if M is None else herm_op("mfree" if cfg["opkind"] != "dense" else "dense", M)
     torch.manual_seed(20240 + n)
     o = call(symeig, Aop, neig=neig, mode=cfg["mode"], M=Mop, method=cfg["method"], **_fwd_opts(cfg))
     if o.exc is not None:
